@@ -30,7 +30,7 @@ MCInit ==
 
 Arrive(q) == /\ ArriveCore(q, {"req"}, <<"*">>, FALSE)
              /\ pin' = pin /\ stage' = (q :> 0) @@ stage
-Pop(q) == \E i \in Insts : /\ PopCore(q, i)
+Pop(q) == \E i \in Insts : /\ PopCore(q, i, Cardinality(SameList(i, free \ {i})))
                            /\ pin' = (q :> inst[i]) @@ pin /\ UNCHANGED stage
 \* one stage of the execution: runs the rules of that stage as the container read yields them
 RunStage(q) ==
@@ -45,7 +45,7 @@ RunStage(q) ==
 Return(q) == /\ q \in DOMAIN rq /\ rq[q].st = "holding" /\ stage[q] = MCStages
              /\ ReturnCore(q, FALSE, <<>>, FALSE)
              /\ UNCHANGED <<pin, stage>>
-Push == \E i \in transit : PushCore(i) /\ UNCHANGED <<pin, stage>>
+Push == \E i \in transit : PushCore(i, Cardinality(SameList(i, free \cup {i}))) /\ UNCHANGED <<pin, stage>>
 
 Upd == \/ /\ done + (IF pend.kind = "none" THEN 0 ELSE 1) <= MCUpdates
           /\ \E k \in {"full", "incr"} : UpdBeginCore(k, RulesV(done + 1), <<>>)
